@@ -94,18 +94,27 @@ theorem single_prefix_unique {s s' : Nat} {x : Dir} (h : [s] <+: x) (h' : [s'] <
   obtain ⟨t, ht⟩ := h; obtain ⟨t', ht'⟩ := h'
   rw [← ht'] at ht; simp at ht; exact ht.1
 
+/-- what can be reachable from split `s` after the merges: what was reachable before, or what was reachable (in the
+store the merges started from) from a directory on the path from the split root to a directory the session wrote into -/
+def RN (fs0 : FS) (dirs : List Dir) (s : Nat) (x : Dir) : Prop :=
+  Reaches fs0 [s] x ∨ ∃ d ∈ dirs, ∃ a, [s] <+: a ∧ a <+: d ∧ Reaches fs0 a x
+
 /-- invariant of the per-split fold of `write_config` -/
-structure MSInv (H : SList → Nat) (B : Nat) (fs0 : FS) (todo : List Nat) (ds : DS) : Prop where
+structure MSInv (H : SList → Nat) (B : Nat) (fs0 : FS) (dirs : List Dir) (todo : List Nat) (ds : DS) : Prop where
   wf : WF ds.fs
   depth : DepthOK ds.fs B
   reach : ∀ s x, Reaches fs0 [s] x → Reaches ds.fs [s] x
   files : ∀ x, filesAt ds.fs x = filesAt fs0 x
   exact : ∀ s k, ds.splits s = some k → s ∉ todo → k.dir = [s] ∧ Exact H ds.fs k
+  frame0 : ∀ s ∈ todo, ∀ y, [s] <+: y → ds.fs y = fs0 y
+  reachNew : ∀ s x, Reaches ds.fs [s] x → RN fs0 dirs s x
+  existNew : ∀ x, ds.fs x ≠ none → fs0 x ≠ none ∨ ∃ s, Reaches ds.fs [s] x
+  reachDirs : ∀ d ∈ dirs, d.headD 0 ∉ todo → Reaches ds.fs [d.headD 0] d
 
 theorem mergeSplits_spec (H : SList → Nat) (B fuel : Nat) (hfuel : B < fuel + 1) (hB : 1 ≤ B) (fs0 : FS) (dirs : List Dir)
     (hdirs : ∀ d ∈ dirs, d ≠ [] ∧ d.length ≤ B) :
-    ∀ (ss : List Nat) (ds : DS), ss.Nodup → MSInv H B fs0 ss ds →
-      MSInv H B fs0 [] (mergeSplits H fuel dirs ss ds) ∧
+    ∀ (ss : List Nat) (ds : DS), ss.Nodup → MSInv H B fs0 dirs ss ds →
+      MSInv H B fs0 dirs [] (mergeSplits H fuel dirs ss ds) ∧
       (∀ s ∈ ss, ∃ k, (mergeSplits H fuel dirs ss ds).splits s = some k) := by
   intro ss
   induction ss with
@@ -121,9 +130,9 @@ theorem mergeSplits_spec (H : SList → Nat) (B fuel : Nat) (hfuel : B < fuel + 
       exact ⟨prefix_single_of_head (hdirs d hd).1 hh, (hdirs d hd).2⟩
     have hpost := merge_spec H B fuel ds.fs [s] (updatesOf dirs s) (by simp; omega) hpre
     simp only [List.nodup_cons] at hnd
-    have hnew : MSInv H B fs0 ss (DS.mk (merge H fuel ds.fs [s] (updatesOf dirs s)).1
+    have hnew : MSInv H B fs0 dirs ss (DS.mk (merge H fuel ds.fs [s] (updatesOf dirs s)).1
         (fun x => if x = s then some (merge H fuel ds.fs [s] (updatesOf dirs s)).2 else ds.splits x)) := by
-      refine ⟨hpost.wf, hpost.depth, ?_, fun x => by rw [hpost.files x]; exact hinv.files x, ?_⟩
+      refine ⟨hpost.wf, hpost.depth, ?_, fun x => by rw [hpost.files x]; exact hinv.files x, ?_, ?_, ?_, ?_, ?_⟩
       · intro s' x hx
         have h0 := hinv.reach s' x hx
         by_cases hs : s' = s
@@ -145,6 +154,45 @@ theorem mergeSplits_spec (H : SList → Nat) (B fuel : Nat) (hfuel : B < fuel + 
         intro hsx
         rw [h1] at hx
         exact hs (single_prefix_unique hx hsx)
+      · -- below the roots of the splits still to be merged nothing has changed
+        intro s' hs' y hy
+        have hne : s' ≠ s := fun h => hnd.1 (h ▸ hs')
+        show (merge H fuel ds.fs [s] (updatesOf dirs s)).1 y = fs0 y
+        rw [hpost.frame y (fun hsy => hne (single_prefix_unique hy hsy))]
+        exact hinv.frame0 s' (List.mem_cons_of_mem _ hs') y hy
+      · intro s' x hx
+        by_cases hs : s' = s
+        · subst hs
+          have hsame : ∀ y, [s'] <+: y → fs0 y = ds.fs y := fun y hy => (hinv.frame0 s' List.mem_cons_self y hy).symm
+          rcases hpost.reachNew x hx with h | ⟨u, hu, a, ha1, ha2, ha3⟩
+          · exact hinv.reachNew s' x h
+          · simp only [updatesOf, List.mem_map, List.mem_filter, decide_eq_true_eq] at hu
+            obtain ⟨d, ⟨hd, _⟩, rfl⟩ := hu
+            exact Or.inr ⟨d, hd, a, ha1, ha2, ha3.frame hinv.wf (fun y hy => hsame y (prefix_trans' ha1 hy))⟩
+        · apply hinv.reachNew s' x
+          apply hx.frame hpost.wf
+          intro y hy
+          exact (hpost.frame y (fun hsy => hs (single_prefix_unique hy hsy))).symm
+      · -- a list that exists now existed in the starting store or is reachable from a split root
+        intro x hx
+        rcases hpost.existNew x hx with h | h
+        · rcases hinv.existNew x h with h0 | ⟨s', hs'⟩
+          · exact Or.inl h0
+          · right; refine ⟨s', ?_⟩
+            by_cases hs : s' = s
+            · subst hs; exact hpost.reachOld x hs'
+            · exact hs'.frame hinv.wf (fun y hy => hpost.frame y (fun hsy => hs (single_prefix_unique hy hsy)))
+        · exact Or.inr ⟨s, h⟩
+      · -- the directories the session wrote into are reachable once their split has been merged
+        intro d hd hnot
+        by_cases hs : d.headD 0 = s
+        · have hu : (⟨d, 0, 0, 0⟩ : Kid) ∈ updatesOf dirs s := by
+            simp only [updatesOf, List.mem_map, List.mem_filter, decide_eq_true_eq]
+            exact ⟨d, ⟨hd, hs⟩, rfl⟩
+          have := hpost.reachUps _ hu
+          rw [hs]; exact this
+        · have hold := hinv.reachDirs d hd (by simp only [List.mem_cons, not_or]; exact ⟨hs, hnot⟩)
+          exact hold.frame hinv.wf (fun y hy => hpost.frame y (fun hsy => hs (single_prefix_unique hy hsy)))
     obtain ⟨h1, h2⟩ := ih _ hnd.2 hnew
     refine ⟨h1, ?_⟩
     intro s' hs'
@@ -171,12 +219,16 @@ theorem session_good (H : SList → Nat) (B fuel : Nat) (hfuel : B < fuel + 1) (
     Good H B (session H fuel ds se) ∧
     (∀ w ∈ se, ∃ k, (session H fuel ds se).splits (w.1.headD 0) = some k) ∧
     (∀ s x, Reaches (applyWrites ds.fs se) [s] x → Reaches (session H fuel ds se).fs [s] x) ∧
-    (∀ x, filesAt (session H fuel ds se).fs x = filesAt (applyWrites ds.fs se) x) := by
+    (∀ x, filesAt (session H fuel ds se).fs x = filesAt (applyWrites ds.fs se) x) ∧
+    (∀ s x, Reaches (session H fuel ds se).fs [s] x → RN (applyWrites ds.fs se) (se.map (·.1)) s x) ∧
+    (∀ x, (session H fuel ds se).fs x ≠ none → applyWrites ds.fs se x ≠ none ∨ ∃ s, Reaches (session H fuel ds se).fs [s] x) ∧
+    (∀ w ∈ se, Reaches (session H fuel ds se).fs [w.1.headD 0] w.1) := by
   obtain ⟨a, b, c, _⟩ := applyWrites_props B se ds.fs hg.wf hg.depth
   have hdirs : ∀ d ∈ se.map (·.1), d ≠ [] ∧ d.length ≤ B := by
     intro d hd; obtain ⟨w, hw, rfl⟩ := List.mem_map.mp hd; exact hse w hw
-  have hinv0 : MSInv H B (applyWrites ds.fs se) (dedup ((se.map (·.1)).map (fun d => d.headD 0))) { ds with fs := applyWrites ds.fs se } := by
-    refine ⟨a, b, fun _ _ h => h, fun _ => rfl, ?_⟩
+  have hinv0 : MSInv H B (applyWrites ds.fs se) (se.map (·.1)) (dedup ((se.map (·.1)).map (fun d => d.headD 0))) { ds with fs := applyWrites ds.fs se } := by
+    refine ⟨a, b, fun _ _ h => h, fun _ => rfl, ?_, fun _ _ _ _ => rfl, fun _ _ h => Or.inl h, fun _ h => Or.inl h,
+      fun d hd hnot => absurd ((mem_dedup _ _).mpr (List.mem_map.mpr ⟨d, hd, rfl⟩)) hnot⟩
     intro s k hk hnot
     obtain ⟨h1, h2⟩ := hg.exact s k hk
     refine ⟨h1, h2.frame ?_⟩
@@ -190,7 +242,8 @@ theorem session_good (H : SList → Nat) (B fuel : Nat) (hfuel : B < fuel + 1) (
     obtain ⟨t, ht⟩ := hx
     rw [← ht]; rfl
   obtain ⟨h1, h2⟩ := mergeSplits_spec H B fuel hfuel hB _ (se.map (·.1)) hdirs _ _ (nodup_dedup _) hinv0
-  refine ⟨⟨h1.wf, h1.depth, fun s k hk => h1.exact s k hk (by simp)⟩, ?_, h1.reach, h1.files⟩
+  refine ⟨⟨h1.wf, h1.depth, fun s k hk => h1.exact s k hk (by simp)⟩, ?_, h1.reach, h1.files, h1.reachNew, h1.existNew,
+    fun w hw => h1.reachDirs w.1 (List.mem_map.mpr ⟨w, hw, rfl⟩) (by simp)⟩
   intro w hw
   apply h2
   rw [mem_dedup]
